@@ -137,6 +137,9 @@ def obligations(prog, S, M, ctx=None):
 def run(ctx):
     t0 = time.time()
     prog, S, M = load(ctx.repo)
+    from sa.xmlchemy_model import ALL_PARTS, mechanism_gate  # noqa: F401
+
+    mechanism_gate(ctx, M, ALL_PARTS)
     for m in prog.modules.values():
         if "/oxml/" in m.path or m.path.endswith("opc/oxml.py"):
             ctx.note_file(m.path)
